@@ -126,15 +126,36 @@ def main():
     def run_grain():
         ubi = free("ubi_"); ubi0 = free("ubi0_"); st = SVDStub(); NPs = patches(FS, st)
         CTX.hyp += [T(pysym.det3(ubi)) > 0, T(pysym.det3(ubi0)) > 0]
-        g = GR.grain.__new__(GR.grain); g.ubi = ubi; g.translation = None; GR.grain.clear_cache(g)
-        g0 = GR.grain.__new__(GR.grain); g0.ubi = ubi0; g0.translation = None; GR.grain.clear_cache(g0)
         with pysym.patched((FS, "np", NPs)), symbolize(GR), symbolize(UC, extra=[(UC, "inv", lambda m: pysym.inv3(np.asarray(m, dtype=object)))]):
+            g = GR.grain(ubi); g0 = GR.grain(ubi0)           # through the real constructor (set_ubi / clear_cache)
             Eg = g.eps_grain_matrix(g0, m=1); Es = g.eps_sample_matrix(g0, m=1); e6 = g.eps_grain(g0, m=1); s6 = g.eps_sample(g0, m=1)
         UB0 = pysym.inv3(ubi0); F = np.dot(ubi.T, UB0.T)
         goals = eqm("grain.eps_grain_matrix(ref grain, m=1) = (F^T.F - I)/2 with F = ubi^T.UB0^T", Eg, (np.dot(F.T, F) - I3) / 2)
         goals += eqm("grain.eps_sample_matrix(ref grain, m=1) = (F.F^T - I)/2", Es, (np.dot(F, F.T) - I3) / 2)
         order = [(0, 0), (0, 1), (0, 2), (1, 1), (1, 2), (2, 2)]
         goals += [("eps_grain e6[%d] = E[%d%d]" % (k, i, j), T(e6[k]) == T(Eg[i, j])) for k, (i, j) in enumerate(order)] + [("eps_sample e6[%d] = E[%d%d]" % (k, i, j), T(s6[k]) == T(Es[i, j])) for k, (i, j) in enumerate(order)]
+        return dict(goals=goals, inputs={})
+    # ---- T1c: the grain object is a history (set_ubi + cached values): after set_ubi every strain equals that of a freshly constructed grain
+    def run_grain_history():
+        ua = free("ua_"); ub = free("ub_"); st = SVDStub(); NPs = patches(FS, st)
+        def diag(p):          # the reference lattices are orthogonal cells here (3 free lengths): the obligations are about WHICH matrices are used, and any comparison a caching layer makes stays cheap
+            d = np.empty((3, 3), dtype=object); d[...] = 0.0
+            for i in range(3): d[i, i] = var("%s%d" % (p, i)); CTX.hyp.append(T(d[i, i]) > 0)
+            return d
+        ubi0 = diag("r0_"); ubi1 = diag("r1_")
+        CTX.hyp += [T(pysym.det3(ua)) > 0, T(pysym.det3(ub)) > 0]
+        with pysym.patched((FS, "np", NPs)), symbolize(GR), symbolize(UC, extra=[(UC, "inv", lambda m: pysym.inv3(np.asarray(m, dtype=object)))]):
+            g = GR.grain(ua); g0 = GR.grain(ubi0); f = GR.grain(ub)
+            first = [g.eps_grain_matrix(g0, m=1), g.eps_sample_matrix(g0, m=1), g.eps_grain(g0, m=1), g.eps_sample(g0, m=1), g.UB, g.mt]     # fill whatever is cached
+            g.set_ubi(ub)
+            got = [g.eps_grain_matrix(g0, m=1), g.eps_sample_matrix(g0, m=1), g.eps_grain(g0, m=1), g.eps_sample(g0, m=1), g.UB, g.mt]
+            want = [f.eps_grain_matrix(g0, m=1), f.eps_sample_matrix(g0, m=1), f.eps_grain(g0, m=1), f.eps_sample(g0, m=1), f.UB, f.mt]
+            g0.set_ubi(ubi1); got2 = g.eps_grain_matrix(g0, m=1); g0f = GR.grain(ubi1); want2 = f.eps_grain_matrix(g0f, m=1)                  # the reference grain changes too
+        goals = []
+        for nm, a, b in zip(("eps_grain_matrix", "eps_sample_matrix", "eps_grain", "eps_sample", "UB", "mt"), got, want):
+            a = np.asarray(a, dtype=object).ravel(); b = np.asarray(b, dtype=object).ravel()
+            goals += [("after set_ubi: grain.%s = that of a freshly constructed grain [%d]" % (nm, k), T(a[k]) == T(b[k])) for k in range(len(a))]
+        goals += eqm("after set_ubi of the REFERENCE grain: eps_grain_matrix = fresh", got2, want2)
         return dict(goals=goals, inputs={})
     # ---- T4: the vectorised kernels feed the same F to the SVD and post-process it like the grain methods; T5: frame rotations and e6 packing
     def run_tm():
@@ -197,6 +218,7 @@ def main():
     jobs += [("unstrained", run_zero, dict(replay=replay, timeout_ms=tmo, keyfn=lambda n, l: "finite_strain:unstrained")),
              ("svd-routes", run_svd, dict(replay=replay, timeout_ms=tmo, keyfn=lambda n, l: "finite_strain:svd-wiring:" + l.split("[")[0][:30])),
              ("grain-wrappers", run_grain, dict(replay=replay, timeout_ms=tmo, keyfn=lambda n, l: "grain.eps:" + l.split("[")[0][:40])),
+             ("grain-set_ubi-history", run_grain_history, dict(replay=replay, timeout_ms=tmo, budget_s=240, keyfn=lambda n, l: "grain.py:set_ubi:stale-cache:" + l.split("=")[0].split(":")[-1].strip()[:30])),
              ("tensor_map-kernels", run_tm, dict(replay=replay, timeout_ms=tmo, keyfn=lambda n, l: "tensor_map.eps-kernel:" + l.split("[")[0][:40])),
              ("frame-rotations-e6", run_rot, dict(replay=replay, timeout_ms=tmo, keyfn=lambda n, l: "tensor_map.rotations:" + l.split("[")[0][:30])),
              ("frame-rotations-roundtrip(monolithic)", lambda: run_rot(True), dict(replay=replay, timeout_ms=(120000 if thorough else 10000), stretch=True)),
@@ -229,6 +251,12 @@ def concrete_checks(label):
                 want = seth_hill(S0, m)
                 if not np.allclose(Eref, want, atol=1e-9): bad.append("grain.eps_grain_matrix(reference grain, m=%g) = %s, Seth-Hill tensor of the applied stretch %s (cell %s)" % (m, np.round(Eref, 6).tolist(), np.round(want, 6).tolist(), cell)); break
                 if not np.allclose(Elab, R @ want @ R.T, atol=1e-9): bad.append("grain.eps_sample_matrix(m=%g) is not R.E.R^T (cell %s)" % (m, cell)); break
+            # history: the same grain object after set_ubi must answer like a fresh grain
+            for ref in (g0, cell):          # one reference per history (a different reference in between could hide a stale cache)
+                for m in (1, 0.5):
+                    gh = GR.grain(np.linalg.inv(UB0)); _ = gh.eps_grain_matrix(ref, m), gh.eps_sample_matrix(ref, m); gh.set_ubi(ubi)
+                    if not np.allclose(gh.eps_grain_matrix(ref, m), g.eps_grain_matrix(ref, m), atol=1e-12) or not np.allclose(gh.eps_sample_matrix(ref, m), g.eps_sample_matrix(ref, m), atol=1e-12):
+                        bad.append("grain.set_ubi history: after evaluating the strain and calling set_ubi(new ubi) the same reference (%s) gives %s, a fresh grain(new ubi) gives %s (m=%g, cell %s)" % ("grain" if ref is g0 else "cell", np.round(gh.eps_grain_matrix(ref, m), 6).tolist(), np.round(g.eps_grain_matrix(ref, m), 6).tolist(), m, cell)); break
             # cell reference (U0 = I) and the vectorised kernels
             ubi2 = np.linalg.inv(B0) @ F.T; g2 = GR.grain(ubi2)
             rs = np.zeros((3, 3)); TM.ubi_and_unitcell_to_eps_sample.gufunc_builder.py_func(ubi2, np.array(cell, float), rs)
